@@ -3,7 +3,7 @@ from __future__ import annotations
 
 import ast
 import re
-from typing import List, Optional
+from typing import Dict, List, Optional
 
 from ..engine import VFG, get_tree
 from ..loader import AnalysisError, short
@@ -130,7 +130,7 @@ def fstring_literal(node: ast.expr) -> Optional[str]:
 def registry_writes(tree):
     """Every construct in the package that can modify jumanji.registration._REGISTRY."""
     out = []
-    target = REG + "_REGISTRY"
+    target = registry_name(tree)
     for m in tree.modules.values():
         def is_reg(e):
             return tree.resolve_expr(m, e) == target
@@ -152,6 +152,33 @@ def registry_writes(tree):
                 if hit:
                     out.append((m, qual, node, hit))
     return out
+
+
+_REG_NAME: Dict[int, str] = {}
+
+
+def registry_name(tree) -> str:
+    """The module-level dict of jumanji.registration that register() stores into (by role: `<X>[...] = ...` inside
+    register with X a module-level name), 'jumanji.registration.<X>'."""
+    if id(tree) in _REG_NAME:
+        return _REG_NAME[id(tree)]
+    m = tree.modules.get("jumanji.registration")
+    f = m.functions.get("register") if m is not None else None
+    if f is None:
+        raise AnalysisError("anchor jumanji.registration.register not found")
+    names = []
+    for st in ast.walk(f.node):
+        if isinstance(st, ast.Assign):
+            for t in st.targets:
+                if isinstance(t, ast.Subscript) and isinstance(t.value, ast.Name) and t.value.id in m.assigns and t.value.id not in names:
+                    names.append(t.value.id)
+    if len(names) != 1:
+        # no store left in register (a variant moved it): fall back to the module-level dict annotated / initialised as a dict
+        names = [k for k, v in m.assigns.items() if isinstance(v, ast.Dict) and not v.keys]
+    if len(names) != 1:
+        raise AnalysisError(f"jumanji.registration: the registry dict could not be identified (candidates {names})")
+    _REG_NAME[id(tree)] = REG + names[0]
+    return _REG_NAME[id(tree)]
 
 
 def _declares_global(fn_node, name):
@@ -179,11 +206,20 @@ def check(tier: str) -> Result:
     if m is None:
         raise AnalysisError("module jumanji.registration not found")
     fns = {}
-    for n in ("parse_env_id", "get_env_id", "register", "make", "_check_registration_is_allowed"):
+    for n in ("parse_env_id", "get_env_id", "register", "make"):
         f = m.functions.get(n)
         if f is None:
             raise AnalysisError(f"anchor {REG}{n} not found")
         fns[n] = f
+    REGQ = registry_name(tree)
+    # the availability check, by role: the function register() calls that raises and reads the registry
+    called = {tree.resolve_expr(m, c.func) for c in ast.walk(fns["register"].node) if isinstance(c, ast.Call)}
+    cands = [f for q, f in m.functions.items() if REG + q in called and q not in fns and any(isinstance(x, ast.Raise) for x in ast.walk(f.node))]
+    if len(cands) > 1:
+        cands = [f for f in cands if any(isinstance(x, ast.Name) and tree.resolve_expr(m, x) == REGQ for x in ast.walk(f.node))]
+    if len(cands) != 1:
+        raise AnalysisError(f"jumanji.registration.register: expected one called helper that can raise (the availability check), found {[c.name for c in cands]}")
+    fns["_check_registration_is_allowed"] = cands[0]
     # ------------------------------------------------------------------ R1
     pat_expr = m.assigns.get("ENV_NAME_RE")
     pattern = None
@@ -266,7 +302,7 @@ def check(tier: str) -> Result:
         e = st[0]
         key = uncopy(e.extra)
         sid = uncopy(v2.mk_attr(e.value, "id"))
-        ok = e.target.kind == "ext" and e.target.args[0] == REG + "_REGISTRY" and key is sid
+        ok = e.target.kind == "ext" and e.target.args[0] == REGQ and key is sid
         conds = norm_path(e.path)
         dom = any(t.kind == "cmp" and t.args[0] == "in" and uncopy(t.args[1]) is sid and t.args[2] is e.target and not pol and fn is fns["_check_registration_is_allowed"]
                   for t, pol, fn in conds)
@@ -281,7 +317,7 @@ def check(tier: str) -> Result:
     v4 = VFG(tree, Model(tree))
     sp = mk("param", chk.qual, chk.params[0])
     v4.apply_func(chk, None, None, [sp], {}, None, None)
-    REG4 = mk("ext", REG + "_REGISTRY")
+    REG4 = mk("ext", REGQ)
     rx4 = [norm_path(path) for kind, fn, node, path, _ in v4.exits if kind == "raise"]
     good = [path for path in rx4 if len(path) == 1 and path[0][0].kind == "cmp" and path[0][0].args[0] == "in" and path[0][1]
             and path[0][0].args[1] is mk("attr", sp, "id") and path[0][0].args[2] is REG4]
@@ -294,7 +330,7 @@ def check(tier: str) -> Result:
     idp = mk("param", f.qual, "id")
     argsp, kwp = mk("param", f.qual, "args"), mk("param", f.qual, "kwargs")
     r = uncopy(v3.apply_func(f, None, None, [idp, mk("star", argsp)], {"**": kwp}, None, None))
-    REGT = mk("ext", REG + "_REGISTRY")
+    REGT = mk("ext", REGQ)
     ok = False
     why = txt(r, 5, 260)
     if r.kind == "call":
@@ -339,7 +375,7 @@ def check(tier: str) -> Result:
         if hit and len(own) == 1 and own[0] is hit[0]:
             uses_registry = exc is not None and contains(exc, REGT)
             if not uses_registry:   # message assembled by statements (loop / join) in the raising function
-                uses_registry = any(isinstance(x, ast.Name) and tree.resolve_expr(fn.module, x) == REG + "_REGISTRY"
+                uses_registry = any(isinstance(x, ast.Name) and tree.resolve_expr(fn.module, x) == REGQ
                                     for x in ast.walk(fn.node if fn is not f else node))
             ok = uses_registry
             why = f"raises under `{txt(hit[0], 3, 60)}` false in {fn.name}; message lists the registry: {uses_registry}"
